@@ -140,3 +140,18 @@ Qed.
 Lemma bif_names_not_probability_headers_l : forall (n r : str) (k : nat),
   ident n -> bif_ctx r -> k < List.length n -> prob_hdr_at (skipn k n ++ r) = false.
 Proof. exact bif_names_not_probability_headers. Qed.
+
+(* save / load: for EVERY (extension, filetype) pair, save writes the format that load with the same arguments
+   parses (or save writes nothing and load returns None); a recognised extension overrides the filetype in both *)
+Lemma save_load_same_format_l : forall ext ft : nat,
+  save_format ext ft = load_format ext ft /\
+  (supported ext = true -> save_format ext ft = Some ext) /\
+  (supported ext = false -> save_format ext ft = if supported ft then Some ft else None).
+Proof.
+  intros ext ft. unfold save_format, load_format, supported. split; [reflexivity|].
+  split; intros H; rewrite H.
+  - apply PeanoNat.Nat.ltb_lt in H.
+    destruct ext as [|[|[|e]]]; try reflexivity. exfalso. apply (PeanoNat.Nat.lt_irrefl 3).
+    eapply PeanoNat.Nat.le_lt_trans; [|exact H]. do 3 apply le_n_S. apply PeanoNat.Nat.le_0_l.
+  - destruct ft as [|[|[|f]]]; reflexivity.
+Qed.
